@@ -206,6 +206,18 @@ def run(ctx):
     p = writes_cell_reachable(ctx, clone_roots)
     rep.check(p is None, 'R3', 'clone-never-writes-a-cell', 'all Clone impls', 'no Clone impl reaches SharedValue::set_value',
               'cloning can write a parameter cell: %s' % ' -> '.join(p or []))
+    # ---------------- R7 the parallel reduction is schedule-independent only for a total order -------------
+    from .C10 import _ordering
+    from ..harness import Report
+    sub = type('Ctx', (), {})()
+    sub.__dict__.update(ctx.__dict__)
+    sub.rep = Report('C10', ctx.tier)
+    _ordering(sub)
+    for o in sub.rep.obligations:
+        (rep.ok('R7', 'total-order:' + o['instance'], o['construct'], o['why']) if o['ok'] else
+         rep.fail('R7', 'total-order:' + o['instance'], o['construct'],
+                  o['why'] + ' — rayon\'s tree reduction returns the same maximum for every schedule only if the comparison is a '
+                  'total order on the exact scores', o['reason']))
     # ---------------- R4 / R6 replica closures -------------------------------------------
     _closures(ctx)
     # ---------------- R5 nondeterminism ---------------------------------------------------
